@@ -329,13 +329,19 @@ func c16Gen(seed int64, idx int) *c16Case {
 			yang.S("type", "string", yang.S("length", "3"), yang.S("pattern", "[a-z]*")))
 		members := []*yang.Stmt{yang.S("type", "int8", yang.S("range", "1..5")), inner, yang.S("type", "boolean")}
 		models := []*yang.RType{a, {Kind: "union", Members: []*yang.RType{b, s3}}, bo}
-		perm := r.Perm(3)
+		// two members of the same builtin type (or of one typedef) that differ in their restrictions are two members
+		members = append(members, yang.S("type", "int8", yang.S("range", "100..120")), yang.S("type", "string", yang.S("pattern", "[0-9]+x")))
+		models = append(models, &yang.RType{Kind: "int", Bits: 8, Ints: []yang.Interval{yang.IV(100, 120)}}, &yang.RType{Kind: "string", Pats: []string{"[0-9]+x"}})
+		perm := r.Perm(len(members))
 		typ = yang.S("type", "union")
 		c.model = &yang.RType{Kind: "union"}
-		n := r.Range(1, 3)
+		n := r.Range(1, len(members))
 		for _, pi := range perm[:n] {
 			typ.Add(members[pi])
 			c.model.Members = append(c.model.Members, models[pi])
+		}
+		for _, s := range []string{"100", "120", "121", "99", "12x", "x", "0x", "100x"} {
+			probe(s)
 		}
 		for _, s := range []string{"1", "5", "6", "0", "+3", "007", "7", "auto", "none", "Auto", "abc", "abcd", "ab", "ABC", "true", "false", "True", "", "au", "a1c", "-1"} {
 			probe(s)
